@@ -12,6 +12,13 @@ class Counter:
         self.n = 0
         self.lock = threading.Lock()
 
+    def __getstate__(self):           # the process scheduler pickles the task graph: a lock is not picklable, and the
+        return {"n": self.n}          # copies counted in worker processes are of no interest (laziness is judged
+                                      # before any compute, in this process)
+    def __setstate__(self, st):
+        self.n = st["n"]
+        self.lock = threading.Lock()
+
     def hit(self, x):
         if getattr(x, "size", 1):        # dask probes the function with an empty "meta" array: not a task
             with self.lock:
